@@ -170,6 +170,16 @@ func propDecompose(t *rapid.T, h hashKind) {
 	var intact []func() bool
 	observe("nothing", 0)
 	for _, o := range ops {
+		// refused SetIndex on the non-empty tree (documented error), then the tree is used further
+		if o.p > 0 && rapid.IntRange(0, 3).Draw(t, "refusedSetIndex") == 0 {
+			j := uint64(rapid.IntRange(0, n+1).Draw(t, "otherIndex"))
+			if err := refusedSetIndex(tr, j); err != nil {
+				t.Fatalf("n=%d i=%d after %v: %v", n, i, log, err)
+			}
+			log = append(log, fmt.Sprintf("RefusedSetIndex(%d)", j))
+			classes["refused_call_then_continue:SetIndex"] = true
+			observe("refused_setindex", o.p)
+		}
 		// refusal probes before the call
 		if rapid.IntRange(0, 3).Draw(t, "probe") == 0 {
 			if o.p > 0 {
@@ -178,6 +188,7 @@ func propDecompose(t *rapid.T, h hashKind) {
 					t.Fatalf("n=%d i=%d after %v: PushSubTree(height %d) at position %d accepted (smallest sub-tree has height %d)", n, i, log, hb, o.p, bits.TrailingZeros(uint(o.p)))
 				}
 				classes["refusal_too_large"] = true
+				classes["refused_call_then_continue:PushSubTree"] = true
 				observe("refused_pushsubtree", o.p)
 			}
 			if o.p <= i {
@@ -189,6 +200,7 @@ func propDecompose(t *rapid.T, h hashKind) {
 					t.Fatalf("n=%d i=%d after %v: PushSubTree(height %d) at position %d accepted although it contains the proof index", n, i, log, hc, o.p)
 				}
 				classes["refusal_contains_index"] = true
+				classes["refused_call_then_continue:PushSubTree"] = true
 				observe("refused_pushsubtree", o.p)
 			}
 		}
